@@ -70,8 +70,14 @@ func runC16Stream(c *ev.Case, ctx *lib.Ctx, sCER, sDWR, sApp uint16, zeroIDs, fa
 	if failCER {
 		app, wantRC = 999, 5010
 	}
-	assoc.Feed(sCER, peer.StdCER(h1, e1, app))
-	exps = append(exps, exp{"CEA", sCER, refcodec.Header{Version: 1, Flags: 0x80, Code: 257, HopByHop: h1, EndToEnd: e1}, wantRC})
+	cerBytes := peer.StdCER(h1, e1, app)
+	cerFlags := uint8(0x80)
+	if (sCER+sDWR)%2 == 1 {
+		cerFlags = 0xC0
+		cerBytes[4] = cerFlags
+	}
+	assoc.Feed(sCER, cerBytes)
+	exps = append(exps, exp{"CEA", sCER, refcodec.Header{Version: 1, Flags: cerFlags, Code: 257, HopByHop: h1, EndToEnd: e1}, wantRC})
 	synctest.Wait()
 	if !failCER {
 		h2, e2 := id(2)
